@@ -33,6 +33,9 @@ type Case struct {
 	Endpoints []EP
 	// ClientChain: the configured client certificate file holds the leaf followed by its issuing CA
 	ClientChain bool
+	// ClientViaIntermediate: the client certificate is issued by an intermediate CA and the file holds
+	// leaf + intermediate (servers that verify client certificates know the root only)
+	ClientViaIntermediate bool `json:",omitempty"`
 	// ViaConf: the signer is built from the "signer" map of a gensign configuration (as cmd/gensign does)
 	ViaConf bool
 	// Parallel: number of Sign calls issued at the same time on the one Signer (0 or 1 = a single call)
@@ -47,6 +50,7 @@ func gen(t *rapid.T) Case {
 		// a CA and its successor under the same subject name (key roll-over), in either order, in two files or one
 		{"caA", "caA2"}, {"caA2", "caA"}, {"bundleAA2"}, {"caA2"}, {"caA", "caB", "caA2"}}).Draw(t, "bundle")}
 	c.ClientChain = rapid.Bool().Draw(t, "clientChain")
+	c.ClientViaIntermediate = rapid.IntRange(0, 3).Draw(t, "clientViaIntermediate") == 1
 	c.ViaConf = rapid.Bool().Draw(t, "viaConf")
 	c.Parallel = rapid.SampledFrom([]int{1, 1, 2, 3, 4}).Draw(t, "parallel")
 	c.More = rapid.SampledFrom([]int{0, 0, 0, 0, 3, 12, 50}).Draw(t, "more")
@@ -148,6 +152,11 @@ func exec(c Case) (vh.Outcome, error) {
 		clientCertFile = f.ClientChainFile()
 		out.Classes = append(out.Classes, "client-cert-with-chain")
 	}
+	if c.ClientViaIntermediate {
+		clientCertFile = f.ClientIntChainFile()
+		out.Classes = append(out.Classes, "client-cert-via-intermediate")
+	}
+	clientLeafDER := vh.LeafDER(clientCertFile)
 	signer, err := vh.NewCrypkiSigner(crypki.SignerConfig{
 		TLSClientKeyFile: f.ClientKeyFile(), TLSClientCertFile: clientCertFile, TLSCACertFiles: files,
 		CrypkiEndpoints: ips, CrypkiPort: uint(g.Port), Retries: 1, PerTryTimeout: 10 * time.Second,
@@ -239,7 +248,7 @@ func exec(c Case) (vh.Outcome, error) {
 		return out, vh.Errf("%s: negotiated TLS version %#x is older than 1.2", desc, calls[0].TLSVersion)
 	}
 	if ca := c.Endpoints[first].ClientAuth; ca != "none" {
-		if len(calls[0].PeerCerts) == 0 || !bytes.Equal(calls[0].PeerCerts[0], f.ClientCertDER()) {
+		if len(calls[0].PeerCerts) == 0 || !bytes.Equal(calls[0].PeerCerts[0], clientLeafDER) {
 			return out, vh.Errf("%s: the server asked for a client certificate (%s) but did not get the configured one (%d presented)", desc, ca, len(calls[0].PeerCerts))
 		}
 	}
@@ -263,7 +272,7 @@ func exec(c Case) (vh.Outcome, error) {
 	return out, nil
 }
 
-const rule = "CA bundles of one or two files (single CA, the other CA, both as separate files, both in one file, a file listed twice, a CA together with its successor under the same subject name and another key - in two files in either order or in one file) and, 4 in 13, degenerate ones (no file at all, empty paths, an empty path next to a real file: either refused as configuration, or no CA beyond the readable files is trusted); the 'foreign' CA is installed as this process's host trust store (SSL_CERT_FILE), i.e. it stands for a publicly trusted CA that is not configured; 1..8 endpoints on loopback aliases (the caller's context carries a 30 s deadline), each a real gRPC-over-TLS server with identity {issued by configured CA A / CA B / CA A's same-named successor with matching IP SAN, by a foreign CA, self-signed, expired a day ago / 20 s ago, not yet valid, valid since 20 s only (genuine), valid for another address, issued by the CA of the RA's own client certificate} x protocol range {TLS 1.0-1.1 only, 1.2 only, 1.3 only, any} x client-certificate policy {none, request, require+verify, request while naming another CA, verify-if-given against the right / another client CA}; the signer is built from the struct or from the 'signer' map of a gensign configuration; the client certificate file holds the leaf alone or the leaf followed by its issuing CA; 1..4 Sign calls issued at the same moment on the one Signer, each judged like a single call, in three cases of seven followed by 3 / 12 / 50 further calls one after another (a Signer lives as long as the process); every server would sign (each with its own certificate, so the answering server is identifiable). Oracle: Sign succeeds iff some endpoint is genuine (issued by a CA of the bundle, right address, valid now, speaks >= TLS 1.2) and the answer is the first such endpoint's; impostors never receive the RPC; negotiated version >= 1.2; when the server asked, the peer certificate is byte-identical to the configured client certificate. Non-trivial: at least one impostor in the list."
+const rule = "CA bundles of one or two files (single CA, the other CA, both as separate files, both in one file, a file listed twice, a CA together with its successor under the same subject name and another key - in two files in either order or in one file) and, 4 in 13, degenerate ones (no file at all, empty paths, an empty path next to a real file: either refused as configuration, or no CA beyond the readable files is trusted); the 'foreign' CA is installed as this process's host trust store (SSL_CERT_FILE), i.e. it stands for a publicly trusted CA that is not configured; 1..8 endpoints on loopback aliases (the caller's context carries a 30 s deadline), each a real gRPC-over-TLS server with identity {issued by configured CA A / CA B / CA A's same-named successor with matching IP SAN, by a foreign CA, self-signed, expired a day ago / 20 s ago, not yet valid, valid since 20 s only (genuine), valid for another address, issued by the CA of the RA's own client certificate} x protocol range {TLS 1.0-1.1 only, 1.2 only, 1.3 only, any} x client-certificate policy {none, request, require+verify, request while naming another CA, verify-if-given against the right / another client CA}; the signer is built from the struct or from the 'signer' map of a gensign configuration; the client certificate file holds the leaf alone, the leaf followed by its issuing CA, or (a quarter of the cases) a leaf issued by an intermediate CA followed by that intermediate, while the servers that verify client certificates know the root only; 1..4 Sign calls issued at the same moment on the one Signer, each judged like a single call, in three cases of seven followed by 3 / 12 / 50 further calls one after another (a Signer lives as long as the process); every server would sign (each with its own certificate, so the answering server is identifiable). Oracle: Sign succeeds iff some endpoint is genuine (issued by a CA of the bundle, right address, valid now, speaks >= TLS 1.2) and the answer is the first such endpoint's; impostors never receive the RPC; negotiated version >= 1.2; when the server asked, the peer certificate is byte-identical to the configured client certificate. Non-trivial: at least one impostor in the list."
 
 func TestC18TLS(t *testing.T) {
 	vh.Run(t, vh.Spec[Case]{Property: "C18", Name: "TestC18TLS", Rule: rule, Gen: gen, Exec: exec})
